@@ -636,7 +636,6 @@ Proof.
     + intros a0 V. rewrite (valid_reply_functional _ _ _ _ V Hp). auto.
 Qed.
 
-Definition elapsed (e : ev) : Z := match e with Adv dt => Z.max 0 dt | _ => 0 end.
 
 Lemma step_facts s e : Inv s -> ev_ok e -> is_resolve e = false ->
   let s' := fst (step true s e) in let o := snd (step true s e) in
@@ -754,8 +753,6 @@ Proof.
 Qed.
 
 (* ---------- traces ---------- *)
-Definition no_resolve (evs : list ev) : Prop := Forall (fun e => is_resolve e = false) evs.
-Fixpoint elapsed_all (evs : list ev) : Z := match evs with [] => 0 | e :: r => elapsed e + elapsed_all r end.
 
 Lemma run_from_app fx : forall a b s,
   run_from fx s (a ++ b) =
@@ -836,7 +833,6 @@ Theorem C20_reply_safe_thm : forall evs, Forall ev_ok evs ->
 Proof. intros evs Hok. unfold run, CURRENT_FX. exact (proj2 (run_inv evs init init_inv Hok)). Qed.
 
 (* ---------- completion ---------- *)
-Definition after (pre : list ev) : st := fst (run_from true init pre).
 
 Lemma after_inv pre : Forall ev_ok pre -> Inv (after pre).
 Proof. intros H. exact (proj1 (run_inv pre init init_inv H)). Qed.
@@ -922,7 +918,6 @@ Section OneRequest.
 End OneRequest.
 
 (* callbacks never outnumber requests, superseded or not *)
-Definition res_count (evs : list ev) : Z := len (filter is_resolve evs).
 Lemma run_cb_le : forall evs s, Inv s -> Forall ev_ok evs ->
   cb_count (snd (run_from true s evs)) + b2z (cbp (fst (run_from true s evs))) <= b2z (cbp s) + res_count evs.
 Proof.
@@ -951,11 +946,6 @@ Proof.
 Qed.
 
 (* ---------- C20_address_iff_valid ---------- *)
-(* the address held in `ip` while `success` is set comes from an acceptable reply received since the last resolve *)
-Definition justified (pre : list ev) (a : list Z) : Prop :=
-  exists pre1 b mid, pre = pre1 ++ Recv b :: mid /\ no_resolve mid /\
-                     reg (after pre1) = true /\ valid_reply (dlen (after pre1)) b a.
-
 Lemma after_snoc pre e : after (pre ++ [e]) = fst (step true (after pre) e).
 Proof.
   unfold after. rewrite run_from_app. destruct (run_from true init pre) as [s1 o1]. cbn [run_from fst].
